@@ -282,3 +282,17 @@ Proof.
   intros Hw Hin. unfold is_rule_enabled. rewrite (get_fill _ _ _ Hw), (curated_default _ _ Hin).
   destruct (get k u) as [[b|]|]; reflexivity.
 Qed.
+
+(* FC11a.  What the property asks of "set the linter's configuration to u2" is fill_with_curated cur u2.  The
+   wasm Linter merges u2 into what it already holds, so a rule that u1 switched off and u2 leaves null stays
+   off: witness over the real table, SpellCheck. *)
+Definition k_SpellCheck : key := [83; 112; 101; 108; 108; 67; 104; 101; 99; 107]%N.
+Lemma wasm_null_does_not_reset :
+  exists (u1 u2 : config) (k : key),
+    wf u1 /\ wf u2 /\ get k u2 = Some None /\
+    is_rule_enabled (fill_with_curated curated_cfg u2) k = true /\
+    is_rule_enabled (fill_with_curated curated_cfg (merge_seq (clear curated_cfg) [u1; u2])) k = false.
+Proof.
+  exists [(k_SpellCheck, Some false)], [(k_SpellCheck, None)], k_SpellCheck.
+  repeat split; try exact I; vm_compute; reflexivity.
+Qed.
